@@ -7,7 +7,7 @@ from typing import Union
 
 import numpy as np
 
-from physt.binnings import fixed_width_binning
+from physt.binnings import FixedWidthBinning
 from physt.statistics import Statistics
 from physt.types import Histogram1D, Histogram2D
 
@@ -58,8 +58,8 @@ def _create_h1(data, meta) -> Histogram1D:
     bin_count = int(bin_count)
     min_ = float(min_)
     max_ = float(max_)
-    binning = fixed_width_binning(
-        bin_width=(max_ - min_) / bin_count, range=(min_, max_)
+    binning = FixedWidthBinning(
+        bin_width=(max_ - min_) / bin_count, bin_count=bin_count, min=min_
     )
     stats = Statistics(sum=data[1:-1, 3].sum(), sum2=data[1:-1, 4].sum())
 
@@ -83,8 +83,8 @@ def _create_h2(data, meta) -> Histogram2D:
         bin_count = int(bin_count)
         min_ = float(min_)
         max_ = float(max_)
-        binning = fixed_width_binning(
-            bin_width=(max_ - min_) / bin_count, range=(min_, max_)
+        binning = FixedWidthBinning(
+            bin_width=(max_ - min_) / bin_count, bin_count=bin_count, min=min_
         )
         binnings.append(binning)
 
